@@ -76,6 +76,10 @@ def _body(stmts, ind, out):
             out.append(p + "match " + f" {s['op']} ".join(f"Ev{e}()" for e in s["evs"]))
         elif k == "send":
             out.append(p + f"send Out{s['n']}()")
+        elif k == "sendg":
+            out.append(p + "send " + f" {s['op']} ".join(f"Out{n}()" for n in s["ns"]))
+        elif k == "startga":
+            out.append(p + "start " + f" {s['op']} ".join(f"{ACTIONS[a][0]}({ACTIONS[a][1]})" for a in s["acts"]))
         elif k == "startact":
             a = ACTIONS[s["a"]]
             out.append(p + f"start {a[0]}({a[1]}) as $a{s['ref']}")
@@ -177,8 +181,12 @@ def _stmts_inner(draw, ctx, depth, helper_params, n, out, prof):
             kinds += ["startact", "awaitact"]
             if prof.get("groups", True):
                 kinds += ["awaitga"]
+                if prof.get("send_groups", True):
+                    kinds += ["startga"]
             if ctx.vis_a:
                 kinds += ["matchact"]
+        if prof.get("groups", True) and prof.get("send_groups", True):
+            kinds += ["sendg"]
         callees = ctx.callable_flows(helper_params)
         if callees:
             kinds += ["startflow", "awaitflow"]
@@ -213,6 +221,11 @@ def _stmts_inner(draw, ctx, depth, helper_params, n, out, prof):
                 ctx.action_refs += 1
         elif k == "awaitact":
             out.append({"k": "awaitact", "a": draw(st.integers(0, len(ACTIONS) - 1))})
+        elif k == "sendg":
+            out.append({"k": "sendg", "op": draw(st.sampled_from(["or", "or", "and"])), "ns": draw(st.lists(st.integers(0, 5), min_size=2, max_size=3, unique=True))})
+        elif k == "startga":
+            acts = draw(st.lists(st.integers(0, len(ACTIONS) - 1), min_size=2, max_size=3, unique=True))
+            out.append({"k": "startga", "op": draw(st.sampled_from(["or", "or", "and"])), "acts": acts})
         elif k == "awaitga":
             acts = draw(st.lists(st.integers(0, len(ACTIONS) - 1), min_size=2, max_size=3, unique=True))
             out.append({"k": "awaitga", "op": draw(st.sampled_from(["or", "or", "and"])), "acts": acts})
